@@ -43,6 +43,12 @@ var c04Indices = []uint32{0, 1, 2, 1<<31 - 1, 1 << 31, 1<<31 + 1, 1<<32 - 1}
 // chain was neutered), so nodes are memoised under that key.
 var c04Cache sync.Map
 
+// (index of the vector seed, non-hardened child index): the child's public key has X < 2^240
+var c04ShortX = []struct {
+	seed int
+	idx  uint32
+}{{0, 161841}, {0, 174548}, {0, 194697}, {1, 244426}, {1, 258834}}
+
 type c04Ref struct {
 	x      *ref.XKey
 	status string
@@ -546,6 +552,32 @@ func runC04(c *mc.Ctx) {
 		c.ParFor(int64(len(more)), func(w *mc.W, i int64) {
 			w.State()
 			c04EvalPath(w, more[i])
+		})
+	}
+
+	// (b3) public keys whose X coordinate has TWO leading zero bytes (1 in 65536, and every candidate
+	// costs a point multiplication): non-hardened children of the vector masters found once by
+	// tools/shortx and re-verified here with the reference.  Each, derived privately, publicly and
+	// neutered afterwards, and everything one level below it.
+	{
+		var sx []c04Path
+		for _, f := range c04ShortX {
+			x, st := c04RefDerive(mc.UnHex(seeds[f.seed]), []uint32{f.idx}, -1)
+			if st != "ok" || x.P.X.BitLen() > 240 {
+				panic(fmt.Sprintf("c04: hard-wired child %d of master %d does not have a short X coordinate", f.idx, f.seed))
+			}
+			for na := -1; na <= 1; na++ {
+				sx = append(sx, c04Path{Net: "mainnet", Seed: seeds[f.seed], Path: []uint32{f.idx}, NeuterAt: na})
+				for _, i := range c04Indices {
+					sx = append(sx, c04Path{Net: "mainnet", Seed: seeds[f.seed], Path: []uint32{f.idx, i}, NeuterAt: na})
+				}
+			}
+			sx = append(sx, c04Path{Net: "testnet3", Seed: seeds[f.seed], Path: []uint32{f.idx, 0}, NeuterAt: 0, Observe: true})
+		}
+		c.Space("paths at and below children whose public key has an X coordinate with two leading zero bytes", int64(len(sx)))
+		c.ParFor(int64(len(sx)), func(w *mc.W, i int64) {
+			w.State()
+			c04EvalPath(w, sx[i])
 		})
 	}
 
